@@ -12,4 +12,4 @@ def run(ctx):
         "3-6 queries, exact duplicates with same/new id from same/other address, tun arrivals at odd instants, idle "
         "gaps, id 0) and real-client runs through a faulty relay (duplicates, impatient re-sends). non-trivial = "
         "scenario with >20 answers and >=2 distinct answer triggers (query / tun arrival / timer sweep).",
-        300, 20000, 60, 400)
+        300, 20000, 60, 150)
